@@ -265,7 +265,10 @@ def execute(plan, ctx):
     # --- repo constraint index must be the reference's (else: harness inconsistency)
     repo_ids = {index_key(i) for i in eg.lambda_vecs_EG_.index}
     if repo_ids != set(mom.ids):
-        if {(i[0], i[2]) for i in repo_ids} != {(i[0], i[2]) for i in mom.ids}:
+        if {(i[0], i[2]) for i in repo_ids} != {(i[0], i[2]) for i in mom.ids} or \
+                {i[1] for i in repo_ids} == {i[1] for i in mom.ids}:
+            # (same event names, so this is no naming difference: constraints exist for (event, group) pairs that
+            # do not occur in the fitted data, or are missing for pairs that do)
             # the multipliers are not indexed by the groups of the data that was fitted
             ctx.fail("C08.constraint_groups", f"multipliers are indexed by {sorted(repo_ids)} but the fitted data has the "
                      f"(event, group) pairs {sorted(mom.ids)}")
